@@ -673,7 +673,8 @@ def opAlias (st : St) (head pathToks aliasToks allocToks : List String) : String
     (match st.types[tid]?, st.vals[vid]?, parsePath pathToks with
      | some n, some v, some (p, _) =>
        if p.any (fun s => s.pf == .inexact) then "skip inexact-key" else
-       let cls := inAliasClass n v p
+       -- the class of C15.alias_live; the empty path hands out nothing and is not judged
+       let cls := !p.isEmpty && inAliasClass n v p
        -- hypothesis of C15.alias_live, evaluated on every record of the class
        if cls && !AliasOK n then "dev-ok hypothesis AliasOK of alias_live does not hold for this type tree" else
        let model : String := match getM st.cfg n .ptr v p with
@@ -683,7 +684,8 @@ def opAlias (st : St) (head pathToks aliasToks allocToks : List String) : String
          | .some _ _ =>
            (match nav n v p with
             | .found res false =>
-              if res.node.isLeaf && !res.val.strip.isNilPtr then
+              -- leaves, structs, slices and maps alike: the harness writes into whatever was handed out
+              if !res.val.strip.isNilPtr then
                 (match aliasN n v p true with | some true => "alias1" | some false => "alias0" | none => "na")
               else "na"
             | _ => "-")       -- the handed-out value is not the addressed leaf (a listed C01 finding): not judged here
